@@ -82,7 +82,7 @@ PROVED = {
  'C17': ('P: contract on TimingAnalysis._generate_timing_map with a caller-supplied integer delay table over a symbolic well-formed netlist of any size: sources are timed 0 and every timed net satisfies T[dest] == max(T[arg]) + delay (the longest-path recurrence; loop invariant over ghost netlist functions, `max` of a generator over a symbolic argument list), discharged by z3; then ', 'timing-map recurrence proved for integer tables (P); float default table, critical paths, paths, fanout bounded (B); '),
  'C20': ('P: contracts on the ordering helpers every exporter sorts its emitted lists with - importexport._natural_sort_key (the key is a pair whose last component is the name itself; one chunk per piece of the split, digit runs as numbers), _name_sorted and _net_sorted (the result is sorted(argument, key=K), K of an item ends with its mapped name; _natural_sort_key applied by contract at the call) and the lemma over them (different names have different keys; the least element under a strict total order is unique, so the ascending arrangement does not depend on the iteration order of the set), discharged by z3; then ',
          'ordering helpers proved tie-free on names (P); every exported text, trace and read-only-ness bounded across processes (B)'),
- 'C19': ('P: contract on the real Matrix constructor from a WireVector (and the bits setter it runs), per shape 1x1..3x3, 1x4, 4x1, for ALL element widths, max_bits and values over the builder model: PyrtlError iff bits <= 0 or the clipped width <= 0 or len(value) != width*rows*columns; element (i,j) has the element width and carries (value >> (((rows-1-i)*columns + (columns-1-j))*width)) mod 2**width (row-major, first element most significant); rows/columns/bits/max_bits recorded; and on the bits setter alone (elements of arbitrary widths: PyrtlError iff b <= 0, every element keeps exactly its low min(b, len) bits) and on Matrix.to_wirevector (the inverse layout, shapes up to 2x2 / 1x3) - slicing, concat and as_wires through their own contracts, discharged by z3; then ',
+ 'C19': ('P: contract on the real Matrix constructor from a WireVector (and the bits setter it runs), per shape 1x1..3x3, 1x4, 4x1, for ALL element widths, max_bits and values over the builder model: PyrtlError iff bits <= 0 or the clipped width <= 0 or len(value) != width*rows*columns; element (i,j) has the element width and carries (value >> (((rows-1-i)*columns + (columns-1-j))*width)) mod 2**width (row-major, first element most significant); rows/columns/bits/max_bits recorded; and on the bits setter alone (elements of arbitrary widths: PyrtlError iff b <= 0, every element keeps exactly its low min(b, len) bits) and on Matrix.to_wirevector (the inverse layout, shapes up to 2x2 / 1x3) and Matrix.transpose (element (i,j) carries source (j,i)) - slicing, concat and as_wires through their own contracts, discharged by z3; then ',
          'WireVector -> Matrix bit layout proved for all element widths/values per shape (P); every operation bounded in shapes/widths, complete in values (PB)'),
  'C02': ('P: translation validation for ALL widths of the FastSimulation per-op expression templates (real simple_func templates evaluated from source, emitted text parsed back) with the real _no_mask_bitwidth mask-elision rule, discharged by z3; PB: translation validation of every emitted C op of CompiledSimulation at limb-crossing widths (elab/cemit); multi-limb multiply on limb-pattern stimuli; then ',
          'FastSimulation per-op emission proved for all widths/values (P); C emitters per width instance (PB); whole programs bounded (B)'),
